@@ -12,7 +12,7 @@ def install(reg):
                              ensures=[("fifo", "self.view == old(self.view) + s")], modifies=["self.view"]))
         reg.add(FuncContract(cls + ".__len__", returns=Int, ensures=[("len", "result == len(self.view)")]))
         reg.add(FuncContract(cls + ".__bool__", returns=Bool, ensures=[("nonempty", "result == (len(self.view) > 0)")]))
-        reg.add(FuncContract(cls + ".close", ensures=[("closed", "self.closed")], modifies=["self.closed"]))
+        reg.add(FuncContract(cls + ".close", raises=["Exception"], ensures=[("closed", "self.closed")], modifies=["self.closed"]))
         reg.add(FuncContract(cls + ".getfile", returns=Opaque("file")))
         reg.add(FuncContract(cls + ".get", params={"numbytes": Int, "skip": Bool}, returns=Bytes,
                              requires=[("numbytes-ge-minus1", "numbytes >= -1")],
